@@ -23,7 +23,7 @@ PROP = {
              "price, one asset unknown to the oracle) followed by 1-3 slash calls through OperatorKeeper.Slash, OperatorKeeper."
              "SlashWithInfractionReason or dogfood SlashWithInfractionReason (by consensus address, known or unknown), with power aimed at "
              "value/20, value/3, value, value+1, 2*value+1, 1, random; factor from {0, 1e-18, 1/3, 5%, 1, 0.999.., random, 1.5, 1+1e-18, negative, nil}; "
-             "infraction height before/at/after the undelegations, in the current block, in the future; pending undelegations maturing between slashes through the real delegation EndBlock (one time in three); replayed identifiers (same and other "
+             "infraction height before/at/after the undelegations, in the current block, in the future; client-chain balance decreases (UpdateNSTBalance < 0) that eat into pending undelegations between undelegation and slash (one case in three), with the ghost original Amount of every record (basis_ok); pending undelegations maturing between slashes through the real delegation EndBlock (one time in three); replayed identifiers (same and other "
              "entry point); directed scenarios first (same-block undelegation regression, zero-operator-value regression, replay through each entry point); "
              "distinct = distinct sha1 of the case; non-trivial = at least one call changed the dumped state"),
     "explanation": ("Theorems (Coq) about the executable model of CheckSlashParameter / SlashAssets / SlashFromUndelegation / Slash / "
